@@ -19,6 +19,11 @@ import FFS.Gen.FsWalletFacts
 namespace FFS.Props.C17
 open FFS.Model.FsWalletConc FFS.Gen.FsWalletFacts
 
+/-- **Regenerated tie for "converges to the set of matching files".** `Refresh` passes every directory entry whose
+    `Info()` succeeds to `notifyNewFiles` — no other filter, no `continue` — so the only thing that decides whether a
+    file becomes an account is the naming rule (`matchFilename`), as in the model's `notify` step. -/
+theorem refresh_scans_everything : refreshPassesEveryEntry = true := by decide
+
 /-- **Lock discipline**, over the regenerated table: every access to listeners / addressList / addressToFileMap is
     under `w.mux` and not inside a `go` statement; all three fields are covered; the dispatch goroutine ranges over
     the snapshot; `getKeyAndPasswordFiles` does not write the shared configuration; a discovery pass, a listener
